@@ -174,6 +174,8 @@ type srvStats struct {
 	oddString, emptyString, twins, twinsInList, oddHit bool
 	bigList, repeatInList, bigNotif, longPath, crowd   bool
 	oddTarget, twinNotOffered                          bool
+	// container shapes (atomic.go)
+	atoms atomStats
 }
 
 func (s srvStats) labels() []string {
@@ -213,7 +215,7 @@ func (s srvStats) labels() []string {
 	add(s.longPath, "path-with-6plus-elements")
 	add(s.crowd, "path-registered-by-3plus-clients")
 	add(s.oddTarget, "target-with-joiner")
-	return l
+	return append(l, s.atoms.labels()...)
 }
 
 func (s srvStats) excluded() map[string]int {
@@ -455,6 +457,11 @@ func runServerInBubble(sc *SrvScenario, open map[string]bool) (st srvStats, err 
 			}
 			sort.Ints(ids)
 			anyCompat, anyIncompat, anyMulti := false, false, false
+			var allQueries [][]string
+			for _, c := range ids {
+				allQueries = append(allQueries, live[c].queries...)
+			}
+			st.atoms.see(op.Notif, refIndex(op.NPrefix, true), entries, allQueries, true)
 			for _, c := range ids {
 				ls := live[c]
 				select {
